@@ -621,9 +621,20 @@ pub fn step_poll(c: &StepCfg) {
         vassert!(f.is_empty() == (s.filled == 0), "C15:is_empty inconsistent");
         vassert!(f.capacity() == c.cap, "C15:capacity changed");
         vassert!(s.filled <= c.cap, "C15:holds more than its capacity");
+        vassert!(futures_core::FusedStream::is_terminated(&f) == (s.filled == 0), "C15:is_terminated differs from emptiness");
     }
     gh::drop_all_handles();
-    core::mem::forget(f);
+    // C08: moving the collection value does not move the children
+    let moved = f;
+    let mut i = 0;
+    while i < c.cap {
+        if let Some(ch) = v::fub_peek(&moved, i) {
+            let id = ch.id as usize % gh::NCH;
+            vassert!(gh.addr[id] == 0 || gh.addr[id] == ch as *const Fut as usize, "C08:a child moved when the collection value was moved");
+        }
+        i += 1;
+    }
+    core::mem::forget(moved);
 }
 
 // ===================================================================== push
